@@ -268,6 +268,12 @@ def r6_emitted_checks_skip_class_level_tests(ctx):
         )
 
 
+def r9_dependent_dispatcher_tests_values_only(ctx):
+    from . import depgen as DG
+
+    DG.law(ctx, "only-dependent-checks")
+
+
 RULES = [
     ("C20.R5", "P1", r5_no_rebuild_without_change, "no rebuild without a change"),
     ("C20.R6", "P1", r6_emitted_checks_skip_class_level_tests, "emitted value checks do not repeat class-level tests"),
